@@ -1,10 +1,80 @@
 import CuqiVerif.Model.C20
 import Mathlib.Algebra.BigOperators.Group.Finset.Basic
+import Mathlib.Algebra.BigOperators.Ring.Finset
+import Mathlib.Algebra.Order.BigOperators.Ring.Finset
+import Mathlib.Algebra.Order.Field.Basic
 import Mathlib.Tactic.Ring
 import Mathlib.Tactic.Linarith
+import Mathlib.Tactic.Positivity
+
+/-!
+# C20 — property theorems
+
+`apply M x i = Σ_{j < cols} M.e i j · x j` is the action of a model matrix on a vector
+`x : ℕ → R` (only indices `< cols` are read).  The theorems hold for every size `n`.
+-/
+open Finset
 
 namespace CuqiVerif.C20
 
-theorem eye_entry (n i j : Nat) : (eye n).e i j = if i = j then 1 else 0 := rfl
+variable {R : Type*} [CommRing R]
+
+/-- action of a model matrix on a vector -/
+def apply (M : FMat) (x : ℕ → R) (i : ℕ) : R := ∑ j ∈ range M.cols, (M.e i j : R) * x j
+
+lemma sum_delta (n k : ℕ) (x : ℕ → R) :
+    ∑ j ∈ range n, (if j = k then (1:R) else 0) * x j = if k < n then x k else 0 := by
+  simp [ite_mul, Finset.sum_ite_eq']
+
+lemma sum_delta_shift (n k d : ℕ) (x : ℕ → R) :
+    ∑ j ∈ range n, (if j + d = k then (1:R) else 0) * x j
+      = if d ≤ k ∧ k - d < n then x (k - d) else 0 := by
+  by_cases h : d ≤ k
+  · have : ∀ j, (j + d = k) ↔ (j = k - d) := fun j => by omega
+    simp only [this, h, true_and]
+    exact sum_delta n (k - d) x
+  · have : ∀ j, ¬ (j + d = k) := fun j => by omega
+    simp [this, h]
+
+/-- entries of the zero-boundary first-order operator -/
+lemma firstOrder_zero_entry (n i j : ℕ) :
+    (firstOrder .zero n).e i j = (if j = i then 1 else 0) - (if j + 1 = i then 1 else 0) := by
+  simp only [firstOrder, spdiags, List.foldl]
+  split_ifs <;> omega
+
+/-- **Stencil, zero boundary, every n and every row (boundary rows included):**
+    `(D x)_i = x_i - x_{i-1}` with `x_{-1} = x_n = 0`. -/
+theorem firstOrder_zero_apply (n : ℕ) (x : ℕ → R) (i : ℕ) :
+    apply (firstOrder .zero n) x i
+      = (if i < n then x i else 0) - (if 1 ≤ i ∧ i - 1 < n then x (i - 1) else 0) := by
+  unfold apply
+  have hc : (firstOrder .zero n).cols = n := rfl
+  rw [hc]
+  simp only [firstOrder_zero_entry]
+  push_cast
+  simp only [sub_mul, Finset.sum_sub_distrib]
+  rw [sum_delta, sum_delta_shift]
+
+/-- **Null space, zero boundary: trivial for every n.** -/
+theorem firstOrder_zero_null {K : Type*} [Field K] (n : ℕ) (x : ℕ → K)
+    (h : ∀ i, i < n + 1 → apply (firstOrder .zero n) x i = 0) : ∀ i, i < n → x i = 0 := by
+  intro i
+  induction i with
+  | zero =>
+    intro hi
+    have := h 0 (by omega)
+    rw [firstOrder_zero_apply] at this
+    simpa [hi] using this
+  | succ k ih =>
+    intro hi
+    have h1 := h (k + 1) (by omega)
+    rw [firstOrder_zero_apply] at h1
+    have hk : x k = 0 := ih (by omega)
+    have : k + 1 - 1 = k := by omega
+    simp [hi, this, hk, show k < n by omega] at h1
+    exact h1
+
+example : apply (firstOrder .zero 3) (fun j => ((j : ℤ) + 1) ^ 2) 2 = 5 := by
+  rw [firstOrder_zero_apply]; norm_num
 
 end CuqiVerif.C20
